@@ -9,7 +9,7 @@ import (
 	"verif/vkit"
 )
 
-var coll = vkit.NewCollector("C14", "TestKillReopen", "1-4 cycles on one SQLite file: a child process (this binary re-executed) runs 1-12 operations (appends with payloads of 0-70000 bytes, SaveOffset for three ids, and Append/SaveOffset calls with an already-cancelled context that must fail and leave nothing behind, often retried), printing one acknowledgement per completed operation; the parent sends SIGKILL on seeing acknowledgement k (plus a drawn delay of 0-800 us so that the kill lands inside the next operation) or lets it close cleanly after k operations; after each cycle the parent reopens the file and audits it, appends one probe event, and finally reopens 1-4 more times. Oracle: every acknowledged event is present at its acknowledged offset, the log is the acknowledged sequence plus at most the one operation in flight, positions increase without reuse, saved offsets are the last acknowledged (or in-flight) ones, appends after reopening get larger offsets, schema_version keeps one row. Non-trivial = a kill with >=1 acknowledged operation before it and a further cycle after it.")
+var coll = vkit.NewCollector("C14", "TestKillReopen", "1-4 cycles on one SQLite file: a child process (this binary re-executed) runs 1-12 operations (appends with payloads of 0-70000 bytes, SaveOffset for three ids (of the latest acknowledged offset or, a consumer rewinding, of one up to three appends back), and Append/SaveOffset calls with an already-cancelled context that must fail and leave nothing behind, often retried), printing one acknowledgement per completed operation; the parent sends SIGKILL on seeing acknowledgement k (plus a drawn delay of 0-800 us so that the kill lands inside the next operation) or lets it close cleanly after k operations; after each cycle the parent reopens the file and audits it, appends one probe event, and finally reopens 1-4 more times. Oracle: every acknowledged event is present at its acknowledged offset, the log is the acknowledged sequence plus at most the one operation in flight, positions increase without reuse, saved offsets are the last acknowledged (or in-flight) ones, appends after reopening get larger offsets, schema_version keeps one row. Non-trivial = a kill with >=1 acknowledged operation before it and a further cycle after it.")
 
 func TestMain(m *testing.M) {
 	if p := os.Getenv("VERIF_C14_CHILD"); p != "" {
@@ -19,7 +19,7 @@ func TestMain(m *testing.M) {
 	vkit.Main(m)
 }
 
-var collIn = vkit.NewCollector("C14", "TestAckedInProcess", "1-3 cycles of 1-10 Append/SaveOffset calls on one SQLite file opened through the fault driver, each call optionally with a fault placed inside it at the driver level (statement fails before running; statement runs and its reply is lost; the caller's context is cancelled right after the statement has run; a transaction commit fails; context already cancelled), a clean Close and reopen after every cycle. Oracle: the reopened log is the attempted appends in order with every acknowledged one present at its acknowledged offset (an append that reported an error may or may not be there), offsets increase and are never reused, LoadOffset returns the last acknowledged (or possibly written) value. Non-trivial = a fault inside an operation after an earlier append, with at least two cycles.")
+var collIn = vkit.NewCollector("C14", "TestAckedInProcess", "1-3 cycles of 1-10 Append/SaveOffset calls (saves also rewind to earlier offsets) on one SQLite file opened through the fault driver, each call optionally with a fault placed inside it at the driver level (statement fails before running; statement runs and its reply is lost; the caller's context is cancelled right after the statement has run; a transaction commit fails; context already cancelled), a clean Close and reopen after every cycle. Oracle: the reopened log is the attempted appends in order with every acknowledged one present at its acknowledged offset (an append that reported an error may or may not be there), offsets increase and are never reused, LoadOffset returns the last acknowledged (or possibly written) value. Non-trivial = a fault inside an operation after an earlier append, with at least two cycles.")
 
 func TestAckedInProcess(t *testing.T) { vkit.Check(t, collIn, GenInProc, RunInProc) }
 
